@@ -897,6 +897,13 @@ def _interp_common(s1, s2, sampling, method, fill_value):
     s2_value : ndarray
 
     """
+    # express both operands in s1's wavelength unit. The conversion is done on
+    # a copy so that s2 is left alone.
+    waveunit = s1.waveunit
+    if s2.waveunit != waveunit:
+        s2 = s2.copy()
+        s2.to(waveunit)
+
     # compute a common wavelength array that spans both spectrum and has the
     # desired sampling
     minwave = min(s1.wave.min(), s2.wave.min())
@@ -915,8 +922,10 @@ def _interp_common(s1, s2, sampling, method, fill_value):
     s2_wave = commonwave[s2_index]
 
     # sample each Spectrum at the requested sampling
-    s1_samplevalue = s1.sample(s1_wave, method=method, fill_value=fill_value)
-    s2_samplevalue = s2.sample(s2_wave, method=method, fill_value=fill_value)
+    s1_samplevalue = s1.sample(s1_wave, method=method, fill_value=fill_value,
+                               waveunit=waveunit)
+    s2_samplevalue = s2.sample(s2_wave, method=method, fill_value=fill_value,
+                               waveunit=waveunit)
 
     # create nominal value arrays
     s1_value = fill_value * np.ones(commonwave.shape)
